@@ -186,13 +186,33 @@ class InRamPolicySupporter(policy_supporter.PolicySupporter):
         vz.MetricType.OBJECTIVE):
       raise ValueError('Requires at least one objective metric.')
 
+    # Only feasible, completed trials that report every objective as a number
+    # can be optimal.
+    objective_names = [
+        m.name
+        for m in self.study_config.metric_information.of_type(
+            vz.MetricType.OBJECTIVE
+        )
+    ]
+
+    def _has_all_objectives(trial: vz.Trial) -> bool:
+      if trial.infeasible or trial.final_measurement is None:
+        return False
+      metrics = trial.final_measurement.metrics
+      return all(
+          name in metrics and not np.isnan(metrics[name].value)
+          for name in objective_names
+      )
+
+    trials = [t for t in self.trials if _has_all_objectives(t)]
+    if not trials:
+      return []
+
     # Add safety warping and remove safety metrics from conversion.
     safety_checker = multimetric.SafetyChecker(
         self.study_config.metric_information
     )
-    warped_trials = safety_checker.warp_unsafe_trials(
-        copy.deepcopy(self.trials)
-    )
+    warped_trials = safety_checker.warp_unsafe_trials(copy.deepcopy(trials))
     config_without_safe = copy.deepcopy(self.study_config)
     config_without_safe.metric_information = (
         self.study_config.metric_information.exclude_type(vz.MetricType.SAFETY)
@@ -205,16 +225,19 @@ class InRamPolicySupporter(policy_supporter.PolicySupporter):
 
     if self.study_config.is_single_objective:
       # Single metric: Sort and take top N.
-      count = count or 1  # Defaults to 1.
-      labels = converter.to_labels(warped_trials).squeeze()
-      sorted_idx = np.argsort(-labels)  # np.argsort sorts in ascending order.
-      return list(np.asarray(self.trials)[sorted_idx[:count]])
+      labels = converter.to_labels(warped_trials).reshape(-1)
+      # np.argsort sorts in ascending order.
+      sorted_idx = np.argsort(-labels, kind='stable')
+      if count is None:
+        # All tied top trials.
+        count = int(np.sum(labels == labels[sorted_idx[0]]))
+      return [trials[i] for i in sorted_idx[:count]]
     else:
       algorithm = multimetric.FastParetoOptimalAlgorithm()
       is_optimal = algorithm.is_pareto_optimal(
           points=converter.to_labels(warped_trials)
       )
-      return list(np.asarray(self.trials)[is_optimal][:count])
+      return [t for t, opt in zip(trials, is_optimal) if opt][:count]
 
   def SetPriorStudy(
       self, study: vz.ProblemAndTrials, study_guid: Optional[str] = None
